@@ -52,7 +52,7 @@ def run(ctx):
     ctx.floor("pairings", 5)
     ctx.floor("reload_refresh", 5)
     ctx.floor("exposure_pairs", 3)
-    ctx.floor("rename_scenarios", 8)
+    ctx.floor("rename_scenarios", 10)
     ctx.assume("item parameters of set_hook_*_name are instances of their annotated classes")
     positive_control(ctx)
     if ctx.tier == "thorough":
@@ -405,7 +405,7 @@ def check_lookup(E, doms):
         f = E.cm.methods[name]
         ctx.analysed(f)
         ctx.count("hook_readers")
-        f_, params, vals = cm_returns(_MD, E.cm, name)
+        f_, params, vals = cm_returns(_MD, E.cm, name, symbolic_attrs=sorted(E.store_attrs))
         keys = []
         for v in vals:
             table_keys(v, keys)
@@ -1020,6 +1020,69 @@ def check_rename_scenarios(E):
                               what, label, got, want), detail="%s.get_name() == %r" % (enc_name, want))
             ctx.require(n > 0, "rename scenario (%s, %s) has no abstract path" % (what, label))
             ctx.count("rename_scenarios")
+        # two ClassManagers in one process (two DEX objects): a rename in one must not be visible through the other
+        asg0 = _bytes_asg(StreamV("ids", index=40), _st.pack("<2HI", 1, 2, 7) + _st.pack("<2HI", 3, 2, 9))
+
+        class _Scen2(SimInterp):
+            def _h_method(self, it, recv, name, args, kwargs, e, func):
+                if isinstance(recv, Obj) and recv.cls is cm_cls:
+                    k = args[0].value() if args and isinstance(args[0], Bits) and args[0].is_const() else (args[0] if args else None)
+                    if name == "get_raw_string" and isinstance(k, int):
+                        return "raw%d" % k
+                    if name == "get_type_ref" and isinstance(k, int):
+                        return 100 + k
+                    if name == "get_proto" and isinstance(k, int):
+                        return ["(p%d)" % k, "V"]
+                if isinstance(recv, Obj) and recv.name == "class-defs" and name == "get_class_idx":
+                    return self.class_def
+                return super()._h_method(it, recv, name, args, kwargs, e, func)
+
+        def run2(asg):
+            it = _Scen2(E.repo, E.folder, asg={**asg0, **asg}, inline_module=m, construct=lambda c: c.name in (id_name, h_name, enc_name))
+            from ..dexmodel import PackerFactoryV
+            it.class_def = Obj(m.cls("ClassDefItem"), "class-def")
+            it.class_def.attrs["F"] = Obj(None, "F")
+            it.class_def.attrs["M"] = Obj(None, "M")
+            cms = []
+            for k_ in range(2):
+                cmo = Obj(cm_cls, "cm%d" % k_)
+                it.call_function(cm_init, [None], recv=cmo)
+                cmo.attrs["packer"] = PackerFactoryV()
+                table = cmo.attrs.get(E.cmi.mangled(E.cmi.table_attr))
+                if not isinstance(table, dict):
+                    raise AnalysisError("ClassManager.__init__ does not create the section table as a dict display")
+                table[E.cmi.members["CLASS_DEF_ITEM"]] = Obj(m.cls("ClassHDefItem"), "class-defs")
+                table[E.cmi.members[section]] = it.construct_obj(h_cls, bind_ctor_args(h_cls, StreamV("ids", index=40), cmo, 2))
+                cms.append(cmo)
+            est = StreamV("enc", index=41)
+            est.leb_values = [0] * nleb
+            enc = it.construct_obj(enc_cls, bind_ctor_args(enc_cls, est, cms[0]))
+            it.call_function(enc_cls.lookup("adjust_idx"), [0], recv=enc)
+            it.call_function(set_name, ["NEW"], recv=enc)
+            gs = cm_cls.lookup("get_string")
+            return it.call_function(gs, [7], recv=cms[1]), it.call_function(gs, [7], recv=cms[0])
+
+        from .. import absint as _absint
+        depth0 = _absint.MAX_DEPTH
+        _absint.MAX_DEPTH = max(depth0, 24)
+        try:
+            results = explore(run2, max_paths=128)
+        finally:
+            _absint.MAX_DEPTH = depth0
+        for asg, r in list.__iter__(results):
+            if isinstance(r, Raised):
+                raise AnalysisError("two-ClassManager rename scenario (%s) raises in the simulation: %s" % (what, r))
+            other, own = r
+            if not isinstance(other, str) or not isinstance(own, str):
+                raise AnalysisError("two-ClassManager rename scenario (%s): get_string evaluates to %s / %s" % (what, show(other)[:50], show(own)[:50]))
+            if hasattr(ctx, "path"):
+                ctx.path(None)
+            ctx.check("rename-scenario", "%s renamed in another ClassManager" % what, other == "raw7", set_name,
+                      "%s.set_name: effect on a second ClassManager" % enc_name,
+                      "after renaming a %s through one ClassManager (one DEX object), get_string(7) of ANOTHER ClassManager created in the same "
+                      "process returns %r instead of its own string %r: the rename table is shared between DEX objects" % (what, other, "raw7"),
+                      detail="second ClassManager unaffected: get_string(7) == 'raw7' (renaming one: %r)" % own)
+        ctx.count("rename_scenarios")
 
 
 # ---- (3c) reload refreshes ------------------------------------------------------------------------------
